@@ -333,7 +333,7 @@ func checkC12(p *Program, r *Report) {
 		if n == 0 {
 			r.Unresolved("C12.matches", "appends to the result lists in "+FnName(T))
 		}
-		r.Floor("C12.matches", 2)
+		r.Floor("C12.matches", 1)
 	}
 	// ---- C12.cursor
 	tlc := NewLinCtx(p, T)
